@@ -1,5 +1,4 @@
 package main
 
-func c27Main(seed uint64, n int, replay string)      {}
 func c26Main(seed uint64, n int, replay string)      {}
 func c25Main(seed uint64, n int, replay string)      {}
